@@ -100,10 +100,14 @@ def setup_state(run, fs, fdef):
             run.assume(_conj(f(ObjView(selfv))))
         if selfv.spec().opaque_inv:
             run.assume(spec.INV(selfv.cls, selfv.t))
+        for sub in nested_objects(selfv):
+            assume_invariants(run, sub)
     cpre = Ctx(old=ObjView(run.old) if run.old is not None else None, new=ObjView(selfv) if selfv is not None else None,
                a=NS(run.args0), run=run, lg=run.lg)
     for cname, f in fs.requires.items():
         run.assume(_conj(f(cpre)))
+    if fs.entry_lemmas:
+        run.assume(*fs.entry_lemmas(cpre))
     # ghost mirrors: writes to a real list field are mirrored into a ghost list (e.g. arrival ids)
     for real, (ghost, valf) in fs.mirrors.items():
         if selfv is not None and selfv.getfield(real) is not None and selfv.getfield(ghost) is not None:
@@ -141,6 +145,27 @@ def _exec_with_local_types(run, body):
         orig_assign(target, v)
     run.assign = assign
     run.exec_block(body)
+
+
+def nested_objects(o, seen=None):
+    """rooted objects reachable through the fields of a rooted object (each once)"""
+    seen = seen if seen is not None else set()
+    out = []
+    if o.fields is None:
+        return out
+    for f in o.fields.values():
+        if isinstance(f, SObj) and f.fields is not None and id(f) not in seen:
+            seen.add(id(f))
+            out.append(f)
+            out += nested_objects(f, seen)
+    return out
+
+
+def assume_invariants(run, o):
+    for cname, f in o.spec().all_invariants().items():
+        run.assume(_conj(f(ObjView(o))))
+    if o.spec().opaque_inv:
+        run.assume(spec.INV(o.cls, o.t))
 
 
 def normal_exit(run, fs, res, rep):
@@ -214,6 +239,11 @@ def normal_exit(run, fs, res, rep):
         for cname, f in selfv.spec().all_invariants().items():
             run.oblige(f"{key}/inv/{cname}", run.clause(cname, f, ObjView(selfv)), kind='inv', clause='inv:' + cname,
                        function=key)
+    if selfv is not None and fs.exit_inv and not fs.pure:
+        for sub in nested_objects(selfv):
+            for cname, f in sub.spec().all_invariants().items():
+                run.oblige(f"{key}/inv/{sub.cls}.{cname}", run.clause(cname, f, ObjView(sub)), kind='inv',
+                           clause=f'inv:{sub.cls}.{cname}', function=key)
     if selfv is not None and fs.kind != 'init':
         frame = None
         if fs.pure:
